@@ -182,7 +182,7 @@ def check_step(logits, mask, logprobs, temperature=1.0, top_p=0.0, top_k=0, tanh
     if not filt_k and not filt_p:
         # no filter: the library's distribution IS the reference one (float32 log-softmax tolerance)
         d = _max_abs_diff(lp, ref)
-        tol = 1e-5 * max(1.0, float(np.abs(ref[np.isfinite(ref)]).max()))
+        tol = 1e-5 * max(1.0, float(np.abs(ref[np.isfinite(ref)]).max())) + _ulp_floor(z)
         if d is None:
             fails.append(("support", "support differs from the feasible set without any filter",
                           {"kept": kept, "feasible": feas}))
@@ -195,11 +195,19 @@ def check_step(logits, mask, logprobs, temperature=1.0, top_p=0.0, top_k=0, tanh
         if kept and all(mask[i] for i in kept):
             q = log_softmax(np.where(np.isin(np.arange(n), kept), z, NEG_INF))
             d = _max_abs_diff(lp, q)
-            tol = 1e-5 * max(1.0, float(np.abs(q[np.isfinite(q)]).max()))
+            tol = 1e-5 * max(1.0, float(np.abs(q[np.isfinite(q)]).max())) + _ulp_floor(z)
             if d is not None and d > tol:
                 fails.append(("value", f"kept log-probabilities are not the renormalised unfiltered ones "
                               f"(diff {d!r})", {"diff": d}))
     return fails, notes
+
+
+def _ulp_floor(z: np.ndarray) -> float:
+    """float32 rounding of the scores themselves (logits / temperature): a few ulps of the largest
+    finite magnitude.  Without it, scores in the thousands (unscaled CVRPTW features, T = 0.2) flag
+    pure float32 rounding."""
+    f = z[np.isfinite(z)]
+    return 8 * 1.1920929e-07 * float(np.abs(f).max()) if f.size else 0.0
 
 
 def _max_abs_diff(a: np.ndarray, b: np.ndarray):
